@@ -45,11 +45,12 @@ CASES = {
 PLAN = {
     'quick': [('expr', 1, 'wide', 1), ('expr', 2, 'core', 2), ('table', 2, 'wide', 2), ('matrix', 2, 'wide', 2),
               ('table', 4, 'mini', 3), ('matrix', 4, 'mini', 2), ('expr', 3, 'mini', 2),
-              ('table', 1, 'join', 2), ('matrix', 1, 'join', 2), ('table', 2, 'joincore', 3)],
+              ('table', 1, 'join', 2), ('matrix', 1, 'join', 2), ('table', 2, 'joincore', 3),
+              ('table', 2, 'rekey', 2), ('matrix', 2, 'rekey', 2)],
     'thorough': [('expr', 2, 'wide', 2), ('expr', 3, 'core', 3), ('expr', 4, 'mini', 3), ('table', 2, 'wide', 2),
                  ('table', 3, 'core', 3), ('table', 4, 'mini', 3), ('matrix', 2, 'wide', 2), ('matrix', 3, 'core', 3),
                  ('matrix', 4, 'mini', 2), ('table', 1, 'join', 2), ('matrix', 1, 'join', 2), ('table', 2, 'joincore', 3),
-                 ('matrix', 2, 'joincore', 4)],
+                 ('matrix', 2, 'joincore', 4), ('table', 3, 'rekey', 3), ('matrix', 3, 'rekey', 3)],
 }
 WORKERS = 8
 
@@ -336,6 +337,13 @@ def run(R):
              'expressions, a struct, a tuple, an interval, an int64 and a str, whole result / first field / len, used in '
              'annotate, select, filter, annotate_globals and annotate_rows, annotate_cols, annotate_entries, filter_rows; the '
              'lookup expression is checked once it is resolved by the annotating call (alone it has free uid fields)',
+             'Part B re-keying: key_by on non-leading / several out-of-order / computed key fields, rename of key and value '
+             'fields, then Table.join (inner/left/right/outer; right side keyed alike, renamed, with an extra key, without '
+             'values), semi_join, anti_join, union (self / filtered / re-keyed / fresh, unify False|True); MatrixTable '
+             'key_rows_by / key_cols_by on out-of-order fields, rename, union_cols (inner/outer, drop_right_row_fields '
+             'True|False), rows/cols/entries; union_rows needs hl.eval (a backend) and is outside. The row field ORDER of '
+             'TableJoin and MatrixUnionCols is taken from the `++` concatenations in their Scala `typ` definitions; all three '
+             'oracles compare struct types with field order',
              'Deep recomputation (2): the cached type of the shared reference nodes `Ref row|global|va|sa|g` '
              '(TopLevelReference) is exempt — the same object legitimately sits under a join node whose row has extra uid '
              'fields, and the text `(Ref row)` carries no type; for those nodes IR.compute_type\'s cache comparison is '
